@@ -377,22 +377,42 @@ def mon_c13(script, res):
     open_all = {}       # req -> dict(kind, wait, processes seen RUNNING since the request)
     open_sig = {}       # req -> dict(sig, {eligible process: pid at the request}, kill log)
     waited = set()
+    mood_low = False    # the daemon has been asked to shut down or restart (from the boundary snapshots and the requests)
+    refused = None      # a process-control request issued while mood_low: [req, description]
     for e in res['trace']:
         k = e[0]
+        if k == 'pass':
+            if e[1] < len(res['snaps']) and res['snaps'][e[1]]['mood'] < 1:
+                mood_low = True
+        if k == 'life':
+            mood_low = False
+        if k in ('ans', 'ansall', 'endacts'):
+            refused = None
+        if refused is not None and k in ('kill', 'fork', 'state'):
+            return ('%s was issued after the shutdown/restart request and must be refused without any effect, but the trace '
+                    'shows %r before its answer' % (refused[1], e))
+        if k == 'req' and mood_low and e[2] in ('start', 'stop', 'signal', 'startall', 'stopall', 'startgroup', 'stopgroup',
+                                                'signalall', 'signalgroup'):
+            refused = [e[1], '%s request %s' % (e[2], e[1])]
         if k == 'wait':
             waited.add(e[1])
         if k == 'req':
             _, req, what, a, b = e
             if what in ('start', 'stop', 'signal') and 0 <= a < n:
-                open_reqs[req] = dict(kind=what, i=a, arg=b, st=cur[a], forked=False, running=False, kills=[], other=False)
+                open_reqs[req] = dict(kind=what, i=a, arg=b, st=cur[a], forked=False, running=False, kills=[], other=False,
+                                      low=mood_low)
             if what in ('signalall', 'signalgroup'):
                 # eligible: every process of the scope that is STARTING, RUNNING or STOPPING at the request
                 scope = [i for i in range(n) if what == 'signalall' or script['procs'][i]['group'] == a]
                 open_sig[req] = dict(sig=(a if what == 'signalall' else b), pids=dict((i, pids[i]) for i in scope if cur[i] in (10, 20, 40)),
                                      kills=[])
             if what in ('startall', 'stopall', 'startgroup', 'stopgroup'):
-                open_all[req] = dict(kind=what[:-3] if what.endswith('all') else what[:-5], wait=(a if what.endswith('all') else b),
-                                     ran=set(), stopped=set())
+                kind_ = what[:-3] if what.endswith('all') else what[:-5]
+                scope = [i for i in range(n) if what.endswith('all') or script['procs'][i]['group'] == a]
+                # eligible: stop requests act on STARTING/RUNNING/BACKOFF processes, start requests on all the others
+                elig = [i for i in scope if (cur[i] in (10, 20, 30)) == (kind_ == 'stop')]
+                open_all[req] = dict(kind=kind_, wait=(a if what.endswith('all') else b), ran=set(), stopped=set(),
+                                     eligible=sorted(elig), low=mood_low, scope=scope, touched=set())
         elif k == 'ansall' and e[1] in open_sig:
             r = open_sig.pop(e[1])
             idx = sorted(x[0] for x in e[2])
@@ -409,6 +429,16 @@ def mon_c13(script, res):
             idx = [x[0] for x in e[2]]
             if len(set(idx)) != len(idx):
                 return 'a group/all request answered with more than one entry for the same process: %r' % (e[2],)
+            if r is not None and not r['low']:
+                # eligibility is decided when each process's turn comes (an earlier call of the same request may reap
+                # another child), so only processes whose state did not change since the request are judged
+                for i in r['scope']:
+                    if i in r['touched']:
+                        continue
+                    if (i in r['eligible']) != (i in idx):
+                        return ('a %s request for a group/all answered for processes %r; p%d, whose state did not change '
+                                'since the request, was %seligible' % (r['kind'], sorted(idx), i,
+                                                                       '' if i in r['eligible'] else 'not '))
             if r is not None and r['wait'] == 1:
                 for (i, status) in e[2]:
                     if not (0 <= i < n) or status != 80:
@@ -432,6 +462,7 @@ def mon_c13(script, res):
                     if r['i'] == e[1] and e[3] == 20:
                         r['running'] = True
                 for r in open_all.values():
+                    r['touched'].add(e[1])
                     if e[3] == 20:
                         r['ran'].add(e[1])
                     if e[3] in (0, 100, 200, 1000):
@@ -442,10 +473,24 @@ def mon_c13(script, res):
             for r in open_sig.values():
                 r['kills'].append(e)
         elif k == 'ans':
+            if e[1] in open_sig or e[1] in open_all:
+                open_sig.pop(e[1], None); open_all.pop(e[1], None)      # the group/all request was answered with a fault
+            if e[2] == 0 and any(x[0] == 'req' and x[1] == e[1] and x[2] in ('shutdown', 'restart') for x in res['trace']):
+                mood_low = True
             r = open_reqs.pop(e[1], None)
             if r is None:
                 continue
             code = e[2]
+            if r.get('low') and code != 6:
+                return ('%sProcess(p%d) was issued after the shutdown/restart request and answered %s instead of SHUTDOWN_STATE'
+                        % (r['kind'], r['i'], code))
+            c_ = script['procs'][r['i']]
+            if r['kind'] == 'start' and not r.get('low') and c_.get('cmd', 0) != 0:
+                want = 20 if c_['cmd'] == 1 else 21
+                if code != want or r['forked']:
+                    return ('startProcess(p%d): the command cannot be run (%s) - expected fault %d and no fork, got %s%s'
+                            % (r['i'], {1: 'missing', 2: 'not executable', 3: 'no permission', 4: 'a directory'}[c_['cmd']],
+                               want, code, ' after forking a child' if r['forked'] else ''))
             if r['kind'] == 'start':
                 if code == 0:
                     if not r['forked']:
